@@ -43,7 +43,13 @@ EXPLANATION = (
     "indices (first/second position, mixed positions, shared index on a third object / third unitary tensor / provided "
     "target, only 2-index tensors). R20b: rebuilding (both occurrences removed, every other object multiplied back once "
     "wherever it stands, prefactors, recursion to the fixed point, every term of the expression once, fewer than two "
-    "unitary tensors unchanged, assumptions kept, non-Expr input refused). R20c: bookkeeping (occurrences counted with "
+    "unitary tensors unchanged, assumptions kept, non-Expr input refused; a sum kept as one factor (a+b)^n - the library's "
+    "Polynom object - is an atomic factor of the product, and when a pair leaves delta = 1 and nothing but number * (a+b) "
+    "behind, the rebuilt product is a sum of terms: every addend is kept with the number distributed and each addend is "
+    "simplified to the fixed point again - sum factor alone, with a number, three addends, addends with their own contracted "
+    "indices or unitary pairs, no targets, next to another tensor, squared, next to a pair that leaves a delta, several "
+    "terms, with delta evaluation; the value comparison multiplies sum factors out so that every addend is summed over its "
+    "own contracted indices). R20c: bookkeeping (occurrences counted with "
     "exponent multiplicity and denominators, exact tensor name, provided targets instead of Einstein targets, "
     "Term._idx_counter/idx/target/contracted against a direct count, delta evaluation exactly once and only on request, "
     "on the whole result, with a target set that protects the true targets - spin-labelled ones and provided targets "
@@ -70,6 +76,10 @@ ASSUMPTIONS = [
     "merge equal bases like sympy, KroneckerDelta(p, p) = 1 and delta**n = delta; sympy's isinstance(Add/Mul/Pow), .args, "
     ".func, .atoms(Index), .has, .subs(index, index), Mul/Add.make_args are modelled on these products; get_symbols(<str>) yields spin-less "
     "indices; func.evaluate_deltas and the KroneckerDelta properties it reads are evaluated from their source",
+    "sum factors: number * (a+b) is distributed to a sum of terms as sympy does (Expr.terms / len(Expr) of the model), (a+b)^n "
+    "next to other factors or with n != 1 stays one factor whose idx lists the indices of all addends with multiplicity (as "
+    "Polynom.idx); scenarios with sum factors use provided target indices (the sum convention over a Polynom counts an index "
+    "once per addend and is outside the decided domain); unitary tensors inside a sum factor that stays a factor are not looked at",
     "orthogonality is represented by one fixed rational rotation matrix (non-symmetric), dimension 2",
     "evaluate_deltas: products of at most three deltas over four indices of one space (quick: the pairs and seven triples "
     "listed in evd_family, thorough: all pairs and triples), one remainder out of a fixed list; a spin label acts only as "
